@@ -167,6 +167,14 @@ func (tx *Tx) Commit() error {
 		countFlag = CountFlagDisabled
 	}
 
+	// reject the whole transaction before anything is written or indexed: an oversized
+	// entry in the middle used to leave the entries before it on disk and in the index.
+	for i := 0; i < writesLen; i++ {
+		if tx.pendingWrites[i].Size() > tx.db.opt.SegmentSize {
+			return ErrKeyAndValSize
+		}
+	}
+
 	for i := 0; i < writesLen; i++ {
 		entry := tx.pendingWrites[i]
 		entrySize := entry.Size()
